@@ -615,6 +615,90 @@ fn relations(rep: &mut Report, rng: &mut Rng, store: &AnnotationStore, model: &M
                 }
             }
         }
+        // RESOURCE and TEXT constraints in a later position on ANNOTATION results, RESOURCE on TEXT results: the filters' documented
+        // meaning, item by item (annotation.resources() follows annotation selectors; the text of an annotation is the text of its selection, or of its selections joined with a space)
+        {
+            let scan: Option<Result<BTreeSet<Row>, Panic>> = match (rt, c) {
+                (Type::Annotation, CS::Res(id, meta)) => store.resource(id.as_str()).map(|res| {
+                    let h = res.handle();
+                    guard(|| {
+                        store
+                            .annotations()
+                            .filter(|a| if *meta { a.resources_as_metadata().any(|r| r.handle() == h) } else { a.resources().any(|r| r.handle() == h) })
+                            .map(|a| vec![format!("annotation:{}", a.handle().as_usize())])
+                            .collect()
+                    })
+                }),
+                (Type::Annotation, CS::Text(t, nocase)) => Some(guard(|| {
+                    store
+                        .annotations()
+                        .filter(|a| {
+                            // one selection: its text; several: their texts joined with a space (the documented delimiter of the query filter)
+                            let x = a.text_simple().map(|x| x.to_string()).unwrap_or_else(|| a.text_join(" "));
+                            if *nocase { x.to_lowercase() == t.to_lowercase() } else { x == *t }
+                        })
+                        .map(|a| vec![format!("annotation:{}", a.handle().as_usize())])
+                        .collect()
+                })),
+                (Type::TextSelection, CS::Res(id, _)) => store.resource(id.as_str()).map(|res| {
+                    let h = res.handle();
+                    guard(|| {
+                        store
+                            .annotations()
+                            .textselections()
+                            .filter(|t| t.resource().handle() == h)
+                            .map(|t| vec![format!("text:{}:{}-{}", t.resource().handle().as_usize(), t.begin(), t.end())])
+                            .collect()
+                    })
+                }),
+                _ => None,
+            };
+            if let (Some(Ok(expect)), Some(got)) = (scan, sec.set()) {
+                if sec.rows().map(|r| r.len() < MAXROWS).unwrap_or(false) {
+                    rep.eval();
+                    rep.distinct(&format!("secondary-vs-scan/{}/{}", rtname(rt), c.kind()));
+                    rep.count(&format!("secondary-vs-scan/{}/{}/{}", rtname(rt), c.kind(), if expect.is_empty() { "empty" } else { "rows" }));
+                    if expect != got {
+                        let kind = if got.is_subset(&expect) { "filter-misses" } else if expect.is_subset(&got) { "filter-has-more" } else { "differs" };
+                        rep.violation(format!("C08/secondary-vs-scan/{}/{}/{}", rtname(rt), c.kind(), kind), ctx(sd, &q, json!({"constraint": format!("{:?}", c), "rows_after_LIMIT_0_0_then_constraint": got, "item_level_scan": expect})));
+                    }
+                }
+            }
+        }
+        // a DATA constraint in a later position on RESOURCE results is the documented filter: resources with an annotation on
+        // their text (or, AS METADATA, on the resource as a whole) that carries matching data - compare with an item-level scan
+        if let (Type::TextResource, Some(got)) = (rt, sec.set()) {
+            let spec: Option<(&String, &String, Option<&OpS>, bool)> = match c {
+                CS::Key(s, k, m) => Some((s, k, None, *m)),
+                CS::KeyVal(s, k, op, m) => Some((s, k, Some(op), *m)),
+                _ => None,
+            };
+            if let Some((set, key, op, meta)) = spec {
+                let scan = guard(|| {
+                    store
+                        .resources()
+                        .filter(|r| {
+                            let hit = |a: ResultItem<Annotation>| a.data().any(|d| d.set().id() == Some(set.as_str()) && d.key().id() == Some(key.as_str()) && op.map(|o| d.value().test(&o.op())).unwrap_or(true));
+                            if meta {
+                                r.annotations_as_metadata().any(hit)
+                            } else {
+                                r.annotations().any(hit)
+                            }
+                        })
+                        .map(|r| vec![format!("resource:{}", r.handle().as_usize())])
+                        .collect::<BTreeSet<Row>>()
+                });
+                if let Ok(expect) = scan {
+                    rep.eval();
+                    rep.distinct(&format!("secondary-vs-scan/RESOURCE/{}", c.kind()));
+                    rep.count(&format!("secondary-vs-scan/RESOURCE/{}/{}", c.kind(), if expect.is_empty() { "empty" } else { "rows" }));
+                    if expect != got {
+                        let kind = if got.is_subset(&expect) { "filter-misses" } else if expect.is_subset(&got) { "filter-has-more" } else { "differs" };
+                        rep.violation(format!("C08/secondary-vs-scan/RESOURCE/{}/{}", c.kind(), kind), ctx(sd, &q, json!({"constraint": format!("{:?}", c), "rows_after_LIMIT_0_0_then_DATA": got, "resources_with_a_matching_annotation": expect})));
+                    }
+                }
+            }
+        }
         if let (Some(a), Some(b)) = (o.set(), sec.set()) {
             rep.distinct(&format!("primary-vs-secondary/{}/{}", rtname(rt), c.kind()));
             if a != b {
